@@ -86,6 +86,8 @@ pub fn rich_docs() -> Vec<ADoc> {
             e("c", vec![at("xml:lang", "")], vec![]),
             e("d", vec![], vec![tx("2")]),
             e("e", vec![at("xml:lang", "DE")], vec![]),
+            // an upper-case primary tag with a sub-tag: lang('de') is true by prefix, ignoring case
+            e("f", vec![at("xml:lang", "De-AT")], vec![e("g", vec![], vec![])]),
         ],
     )));
     // D6 numeric text, keyword-named elements
